@@ -121,6 +121,8 @@ def main():
     ap.add_argument("--checks", default="C01 C02 C03 C04 C05 C14 C11 C09 C06")
     ap.add_argument("--out", default=os.path.join(VERIF, "tools", "mutation_results.json"))
     ap.add_argument("--files", default=" ".join(FILES))
+    ap.add_argument("--target-map", default="", help="file=Cxx+Cyy,file=...: run only these checks for mutants of that file "
+                    "(does the check of the property the file implements catch it, not just some check?)")
     a = ap.parse_args()
     random.seed(a.seed)
     wt = tempfile.mkdtemp(prefix="verif-mut-")
@@ -158,7 +160,10 @@ def main():
                     continue
                 done += 1
                 rec["status"] = "survived all listed checks"
-                for pid in a.checks.split():
+                tmap = dict(kv.split("=") for kv in a.target_map.split(",") if kv)
+                checks = tmap[f].split("+") if f in tmap else a.checks.split()
+                rec["checks_run"] = checks
+                for pid in checks:
                     t = time.time()
                     p = subprocess.run([os.path.join(VERIF, "check"), pid, "--tier", "quick"], cwd=VERIF,
                                        env=dict(os.environ, VERIF_REPO=wt, VERIF_SELFTEST="1"), stdout=subprocess.PIPE,
